@@ -478,6 +478,9 @@ class SArr:
                 return f(a.elem(*ia), o.elem(*io))
             dt = out_dtype or np.result_type(a.dtype, o.dtype)
             return SArr.from_fn(fn, shape, dt)
+        if isinstance(o, (list, tuple)):
+            from .models_numpy import array_from_list
+            return self._ew(array_from_list(list(o)), f, out_dtype)
         dt = out_dtype or _result_dtype_scalar(a.dtype, o)
         return SArr.from_fn(lambda *idx: f(a.elem(*idx), o), a.shape, dt)
 
